@@ -1148,10 +1148,13 @@ def gen_dense(rng):
 def gen_dense_general(rng):
   rank = rng.choice([1, 2, 3, 3, 4, 4])
   shp = _shape(rng, rank, 1, 3)
-  nb = rng.choice([0, 0, 1, 2]) if rank >= 3 else (rng.choice([0, 1]) if rank == 2 else 0)
+  nb = rng.choice([0, 1, 1, 2]) if rank >= 3 else (rng.choice([0, 1]) if rank == 2 else 0)
   nb = min(nb, rank - 1)
   rest = list(range(nb, rank))
   na = rng.randint(1, min(2, len(rest)))
+  if nb >= 1 and rank - nb >= 2 and rng.random() < 0.7:
+    na = min(na, rank - nb - 1)  # keep at least one free (neither batch nor contracted) axis
+    shp[0] = rng.choice([2, 3])  # a real batch, so per-batch kernels / biases differ
   ax = rng.sample(rest, na)  # unsorted on purpose
   axis = [a - rank if rng.random() < 0.5 else a for a in ax]
   bd = list(range(nb))
@@ -1162,7 +1165,7 @@ def gen_dense_general(rng):
   kshape = [shp[b] for b in range(nb)] + [shp[a] for a in sax] + feats
   _check_exact(prod(shp[a] for a in sax))
   c = {'kind': 'dense_general', 'x': rand_T(rng, shp, -XR, XR), 'k': rand_T(rng, kshape, -KR, KR),
-       'bias': rand_T(rng, [shp[b] for b in range(nb)] + feats, -BR, BR) if rng.random() < 0.7 else None,
+       'bias': rand_T(rng, [shp[b] for b in range(nb)] + feats, -BR, BR) if rng.random() < (0.85 if nb else 0.7) else None,
        'axis': axis, 'batch_dims': bd, 'features': feats,
        'axis_int': len(axis) == 1 and rng.random() < 0.5, 'features_int': len(feats) == 1 and rng.random() < 0.5}
   c['_nt'] = prod(shp[a] for a in sax) >= 2 and prod(shp) // prod(shp[a] for a in sax) * prod(feats) >= 2
@@ -1922,6 +1925,10 @@ def judge_all(ctx, drv, cases, evs):
     if case.get('_malformed'):
       ctx.count('malformed', case['_malformed'])
     ctx.count('stream', 'systematic' if case.get('_sys') else ('malformed' if case.get('_malformed') else 'random'))
+    if case['kind'] == 'dense_general':
+      nbd = len(case['batch_dims'])
+      free = len(case['x']['s']) - nbd - len(case['axis'])
+      ctx.count('dense_general_shape', f"batch={nbd} free={min(free, 2)} bias={'y' if case.get('bias') else 'n'}")
     if case['kind'] in ('conv', 'conv_transpose'):
       ctx.count('padding', case['padding'] if isinstance(case['padding'], str) else ('int' if isinstance(case['padding'], int) else 'explicit'))
       ctx.count('batch_dims', len(case['x']['s']) - len(case['kernel_size']) - 1)
@@ -2010,6 +2017,24 @@ def systematic(rng):
     for op in ('avg', 'max', 'min'):
       cases.append({'kind': 'pool', 'op': op, 'x': rand_T(rng, bshape + [4, 1], -XR, XR), 'window': [2], 'strides': [1 + nbd % 2],
                     'padding': [[1, 1]], 'count_include_pad': False, '_nt': True, '_sys': True})
+  # DenseGeneral / LinearGeneral with per-batch kernel AND bias: 1-2 batch axes, a free axis of size == B, != B and 1,
+  # single / multi-axis contraction (unsorted, negative), single / multi-dim features, bias rows distinct per batch entry
+  for bshape in ([2], [3], [2, 3]):
+    nb = len(bshape)
+    for t in (bshape[0], bshape[0] + 1, 1):
+      for contr, axis, feats in (([3], [-1], [2]), ([2, 3], [-1, nb + 1], [2, 2]), ([3], [nb + 1], [1, 2])):
+        shp = bshape + [t] + contr
+        kshape = bshape + contr + feats
+        bsh = bshape + feats
+        nrow = prod(feats)
+        while True:
+          bias = rand_T(rng, bsh, -BR, BR)
+          rows = [tuple(bias['d'][i * nrow : (i + 1) * nrow]) for i in range(prod(bshape))]
+          if len(set(rows)) == len(rows):
+            break
+        cases.append({'kind': 'dense_general', 'x': rand_T(rng, shp, -XR, XR), 'k': rand_T(rng, kshape, -KR, KR), 'bias': bias,
+                      'axis': axis, 'batch_dims': list(range(nb)), 'features': feats, 'axis_int': False, 'features_int': False,
+                      '_nt': True, '_sys': True})
   for n in (1, 3):
     idx = list(range(-n - 1, n + 1))
     cases.append({'kind': 'embed', 'op': 'lookup', 'table': rand_T(rng, [n, 2], -XR, XR), 'idx': T([len(idx)], idx), '_nt': True, '_sys': True})
